@@ -305,7 +305,11 @@ pub fn check(hdr: &str, lines: &[String], trace: &[(String, Vec<String>)], mon: 
                     fail(mon, hdr, "foreign_master_silent", cause, &format!("src={src} frag={} -> {}", hex(f), outs.join(" | ")));
                 }
             }
-            if delivered_now && is_bc && t.iter().any(|x| x.bytes.len() >= 2 && x.bytes[1] == 0x81) {
+            // (an unsolicited CONFIRM that arrives on a broadcast address and ends the confirm wait lets the READ
+            // deferred during that wait be answered in the same operation: that response answers the unicast
+            // READ, not the broadcast)
+            let ends_unsol_wait = func == Some(0) && outs.iter().any(|o| o.starts_with("cb unsol_confirmed"));
+            if delivered_now && is_bc && !ends_unsol_wait && t.iter().any(|x| x.bytes.len() >= 2 && x.bytes[1] == 0x81) {
                 let cause = if herr { "D6" } else { "" };
                 fail(mon, hdr, "broadcast_never_answered", cause, &format!("frag={} -> {}", hex(f), outs.join(" | ")));
             }
@@ -758,6 +762,22 @@ pub fn check(hdr: &str, lines: &[String], trace: &[(String, Vec<String>)], mon: 
                 unsol_confirmed_once = true;
                 unsol_waiting = None;
                 not_before = None;
+            }
+        }
+        // a DISABLE_UNSOLICITED that arrived while a solicited confirm was awaited is held until the session is
+        // idle again; the idle loop may start an unsolicited series first and handle the request INSIDE that
+        // series' confirm wait: started and cancelled in one operation (the unsolicited transmission precedes
+        // the reply to the DISABLE)
+        if disable_in_op && unsol_waiting.is_some() {
+            let pu = t.iter().position(|x| x.bytes.len() >= 2 && x.bytes[1] == 0x82);
+            let ps = t.iter().rposition(|x| x.bytes.len() >= 2 && x.bytes[1] == 0x81 && Some(x.bytes[0] & 0x0F) == seq);
+            if let (Some(pu), Some(ps)) = (pu, ps) {
+                if pu < ps {
+                    if unsol_is_data {
+                        not_before = Some(now + cfg.rdelay);
+                    }
+                    unsol_waiting = None;
+                }
             }
         }
         // deferred READ
